@@ -43,6 +43,42 @@ MANIFEST = {
 }
 
 
+def move_to_front(ctx):
+    """T9.front: the private operation that hands out the link of an existing key as the newest one (used by every hit and
+    by re-assignment) leaves that link immediately before the anchor on every normal path: the path stores it into
+    anchor[PREV], or it established that it already is there (anchor[PREV] is link / link[NEXT] is anchor)."""
+    import ast
+    from sa.index import FuncInfo
+    from rules.common import paths_of, txt, tests_on, PrivInl, loc
+    prog = ctx.program
+    ci = prog.cls('cacheutils.LRI')
+    n = 0
+    for nm, m in ci.members.items():
+        if not isinstance(m, FuncInfo) or not nm.startswith('_') or nm.startswith('__'):
+            continue
+        w, paths = paths_of(prog, m, recv=ci, model=PrivInl(prog))
+        for p in paths:
+            if p.kind != 'return' or p.outcome[1] is None:
+                continue
+            R = txt(w.expand(p.outcome[1]))
+            if not R.startswith('self._link_lookup['):
+                continue
+            n += 1
+            stored = [o for o in p.ops if o.kind == 'sub_store' and txt(o.val) == 'self._anchor[PREV]' and o.info is not None
+                      and txt(w.expand(o.info)) == R]
+            est = False
+            for t, truth, o in tests_on(w, p):
+                for a, b in (('self._anchor[PREV]', R), (R + '[NEXT]', 'self._anchor')):
+                    if t in ('%s is %s' % (a, b), '%s is %s' % (b, a)) and truth or \
+                            t in ('%s is not %s' % (a, b), '%s is not %s' % (b, a)) and not truth:
+                        est = True
+            ok = bool(stored) or est
+            ctx.ob('T9.front', m.fq, 'the link handed out for an existing key is (made) the newest: stored into anchor[PREV], or already '
+                   'established to be there', ok, loc=m.loc, path=p.describe() if not ok else None)
+    if n == 0:
+        ctx.unknown('T9.front', 'cacheutils.LRI', 'no private method returning a link of _link_lookup found', '')
+
+
 def run(ctx):
     from rules.common import check_sentinel_default as _csd
     for _c in ('cacheutils.LRI', 'cacheutils.LRU'):
@@ -60,10 +96,11 @@ def run(ctx):
     subjects += [f for nm, f in mod.functions.items() if nm.startswith('_')]
     for m in subjects:
         n_sp += onepass.splice_shape(ctx, m)
+    move_to_front(ctx)
     upd = ctx.program.func('cacheutils.LRI.update')
     onepass.sources_consumed(ctx, upd, [p_ for p_ in (upd.params[1:] + ([upd.node.args.kwarg.arg] if upd.node.args.kwarg else []))])
     if n_sp == 0:
         ctx.info('T28: no unlink statement of the form X[a][b] = X[c] in LRI/LRU')
     for r, n in (('T1', 16), ('T2', 20), ('T7', 2), ('T7e', 2), ('T9.count', 4), ('T9.soft', 4), ('T9.onmiss', 2),
-                 ('T8.copy', 2), ('T8.copy.src', 2), ('T18', 2), ('T11.count', 6), ('T7.init', 2)):
+                 ('T8.copy', 2), ('T8.copy.src', 2), ('T18', 2), ('T11.count', 6), ('T7.init', 2), ('T9.front', 1)):
         ctx.need(r, n)
